@@ -469,6 +469,8 @@ SPEC = {
             'a save that does not return is a violation: the sink aborts a writer that is still offering bytes after 10 000 consecutive answers without progress, '
             'and a save running for more than 30 s is abandoned and reported; a document whose reference save (perfect sink) fails, panics or hangs is a failing case of its own; '
             'the model is given the implementation\'s own reference output cut into arbitrary write_all calls; '
+            'after each run the document must be in its original state or exactly that of a successful save (an IncrementalDocument: no raise of max_id, '
+            'previous bytes and previous document untouched) with version, mark and objects unchanged, and '
             'each run is followed by a re-save of the same document object to a healthy sink which must load back to the reference content; '
             'Document::save(path) and IncrementalDocument::save(path) (BufWriter<File> + into_inner) on the same documents, outputs from '
             '100 bytes to 40 KiB (below and above the 8 KiB buffer, streams of capacity-1/capacity/capacity+1 bytes): a healthy temporary '
@@ -485,9 +487,11 @@ SPEC = {
                       'C19: for outputs above 64 KiB the model answers with result + delivered LENGTH (its printer is not stack-safe for 300 KB atoms); that the '
                       'delivered bytes are a prefix of the reference output is checked by the harness directly',
                       'C19: "never returns" is decided by bounds: 10 000 consecutive sink answers without progress, or 30 s of wall time for one save'],
-    'partial_note': 'resave_after_failure is proved for the document state and the issued calls (C19_failed_save_residue, '
-                    'C19_resave_table, C19_resave_stream_partial); that the re-saved file loads to the same content needs the loader '
-                    '(C01/C03) and is evaluated on the implementation for every case instead',
+    'partial_note': 'stream format: the BYTES of a re-save differ from a pristine save in the cross-reference stream object (new object '
+                    'number, Size, Index), so byte identity is proved up to that object only (C19_resave_stream_partial, '
+                    'C19_incremental_resave_stream_partial); that the re-saved file LOADS to the same content is proved by composition '
+                    '(plain: C19_resave_after_failure_loads with C01; incremental: C19_incremental_resave_after_failure_loads with C07, '
+                    'for updates in the domain of C07\'s history step) and evaluated on the implementation for every case',
     'model_shards': 16,
     'impl_shards': 8,
     'model_timeout': 3600,   # thorough tier on a busy machine (quick: a few seconds per shard)
@@ -516,10 +520,17 @@ MANIFEST = {
                   'Re-save clause, composed with C01_full: whatever state a failed save_to / save(path) leaves (for any recorded ids), the document is '
                   'still in C01\'s domain, a re-save in either format loads, and the loaded document is same_doc to the ORIGINAL document '
                   '(C19_resave_after_failure_loads, C19_resave_after_failed_save_path_loads). '
+                  'IncrementalDocument::save_to with state (save_inc_with): the previous bytes never change, new_document is the original '
+                  '(no raise of max_id here) or mutated exactly as by a successful save (C19_incremental_failed_save_residue); a re-save '
+                  'issues the same calls (table) / the same bytes up to the cross-reference stream object (stream) '
+                  '(C19_incremental_resave, C19_incremental_resave_stream_partial); composed with C07\'s byte-level history: the re-save '
+                  'succeeds, is again a step of the history and loads to the overlay a pristine incremental save loads to, up to the number '
+                  'of the cross-reference stream object (C19_incremental_resave_after_failure_loads). '
                   'Tied to the real save_to by differential runs with scripted sinks at every failure offset, and to the real '
                   'save(path) by runs on a healthy file, a directory, /dev/full and RLIMIT_FSIZE-limited files.',
     'level_note': 'Trusted: Coq kernel; std write_all and BufWriter transcriptions; hand-written model tied by correspondence (result class, '
-                  'delivered bytes, max_id/trailer after the save, byte-identity of the re-save); extraction/OCaml driver; Rust harness. '
+                  'delivered bytes, max_id/trailer after the save, byte-identity of the re-save; directly on the implementation: version, mark, objects, '
+                  'previous bytes and previous document untouched by any save); extraction/OCaml driver; Rust harness. '
                   'What the saved bytes are and that they load back is C01 (composed: Proofs/ComposeSink.v, for documents of C01\'s domain below 4 GiB); '
                   'the re-save clause is also checked end-to-end on the implementation. No axioms.',
     'technique': 'Coq proof by induction over sink scripts and call lists + differential correspondence with fault-injecting sinks',
